@@ -25,8 +25,8 @@ def configs(tier, seed=0):
         for bc in ['zero', 'periodic', 'neumann']:
             for order in [0, 1, 2]:
                 for d in [3] + ([4] if tier == 'thorough' else []):
-                    if order == 2 and bc == 'neumann' and d < 3:
-                        continue
+                    if (order == 2 and bc == 'neumann') or (order == 0 and bc != 'zero'):
+                        continue     # the GMRF's own rank / log-determinant are defective there (KF-C20-gmrf-*): no meaningful target density
                     out.append({'key': '%s/gmrf/%s/o%d/d%d' % (iface, bc, order, d), 'kind': 'pair', 'iface': iface, 'family': 'GMRF', 'bc': bc, 'order': order, 'dim': d, 'mean': 'sym'})
     for bad in ['cov-inv-square', 'prec-2s', 'prec-square', 'sqrtprec-sqrt', 'two-occurrences', 'vector-gamma', 'normal-prior', 'cov-identity', 'prec-reciprocal']:
         out.append({'key': 'exp/reject/%s' % bad, 'kind': 'reject', 'iface': 'exp', 'bad': bad})
